@@ -38,7 +38,8 @@ CONSTANTS LeafTypes,   \* types of object/constant leaves
           MaxDepth, MaxLeaves, MaxStack,
           MinParen,    \* BOOLEAN: spell with the fewest parentheses the grammar allows
           TwoPhase,    \* BOOLEAN: choose the kind of step first (balances -simulate)
-          Rnd          \* BOOLEAN: every parameter of a step is one random element (for -simulate) instead of all elements
+          Rnd,         \* BOOLEAN: every parameter of a step is one random element (for -simulate) instead of all elements
+          PtrLv        \* BOOLEAN: assignments and ++/-- are also made through a pointer to the object (*p op= e)
 
 VARIABLES st, cnt, kind, fin
 vars == <<st, cnt, kind, fin>>
@@ -233,7 +234,7 @@ BfDeclT(k) == IF k[1] = "B" THEN "B" ELSE IF k[1] = "s" THEN "i" ELSE "u"
 (*        uu   contains an unevaluated operand whose evaluation would be undefined;                               *)
 (*        sg   signatures "<operator>:<operand types>" of every node, root last (attribution of a mismatch);     *)
 (*        lv   declarations: [k, n, t, w, i, f0, f] (k: "v" object, "bf" bit-field object, "lv"/"lvbf" assigned   *)
-(*             object; t type; w bit-field width; i initialiser; f0/f canonical value before/after evaluation)    *)
+(*             object, "lvp" object assigned through a pointer; t type; w bit-field width; i initialiser; f0/f canonical value before/after evaluation)    *)
 Decl(k, n, t, w, i, f0, f) == [k |-> k, n |-> n, t |-> t, w |-> w, i |-> i, f0 |-> f0, f |-> f]
 Ent(s, c, r, p, d, nl, ice, bf, uu, lv, sg) ==
   [ty |-> s.ty, v |-> s.v, ok |-> s.ok, c |-> IF ice THEN c ELSE "", r |-> r, p |-> p, d |-> d, nl |-> nl,
@@ -295,11 +296,14 @@ CondEnt(x, y, z) ==
          x.lv \o (IF first THEN y.lv \o Unev(z.lv) ELSE Unev(y.lv) \o z.lv),
          Append(x.sg \o y.sg \o z.sg, "?::" \o TyS(x) \o "," \o TyS(y) \o "," \o TyS(z))), x.bn \/ ch.bn)
 (* assignment to a fresh object a<n> of type tl holding v0 *)
-AsgEnt(op, tl, v0, y, n) ==
+(* ptr: the object is designated as *p<n>, p<n> pointing to a<n> (6.5.3.2); afterwards a<n> itself is read *)
+AsgEnt(op, tl, v0, y, n, ptr) ==
   LET s == SemAsg(op, tl, v0, y.ty, y.v)
       nm == "a" \o NS(n)
-  IN Bn(Ent(s, "", nm \o " " \o op \o " " \o Wr(y, "r", 2), 2, y.d + 1, y.nl + 1, FALSE, FALSE, y.uu,
-         <<Decl("lv", nm, tl, 0, LitOf(tl, v0), Hex64(v0), Hex64(s.v))>> \o y.lv, Append(y.sg, op \o ":" \o tl \o "," \o TyS(y))),
+      lv == IF ptr THEN "*p" \o NS(n) ELSE nm
+  IN Bn(Ent(s, "", lv \o " " \o op \o " " \o Wr(y, "r", 2), 2, y.d + 1, y.nl + 1, FALSE, FALSE, y.uu,
+         <<Decl(IF ptr THEN "lvp" ELSE "lv", nm, tl, 0, LitOf(tl, v0), Hex64(v0), Hex64(s.v))>> \o y.lv,
+         Append(y.sg, op \o (IF ptr THEN ":*" ELSE ":") \o tl \o "," \o TyS(y))),
         y.bn \/ (tl = "B" /\ NotBool(AsgRhs(op, tl, v0, y.ty, y.v).v)))
 AsgBfEnt(op, k, v0, y, n) ==
   LET tp == BfProm(k)
@@ -310,13 +314,15 @@ AsgBfEnt(op, k, v0, y, n) ==
          <<Decl("lvbf", nm, BfDeclT(k), k[2], BaseLit(tp, v0), Hex64(v0), Hex64(nv))>> \o y.lv,
          Append(y.sg, op \o ":bf" \o BfName(k) \o "," \o TyS(y))), y.bn \/ (k[1] = "B" /\ NotBool(r.v)))
 (* ++ -- (6.5.2.4, 6.5.3.1): E += 1 / E -= 1; the postfix forms yield the old value *)
-IncEnt(op, tl, v0, n) ==
+IncEnt(op, tl, v0, n, ptr) ==
   LET s == SemAsg(IF op \in {"++p", "p++"} THEN "+=" ELSE "-=", tl, v0, "i", One64)
       nm == "a" \o NS(n)
+      pre == IF ptr THEN "*p" \o NS(n) ELSE nm             \* operand of a prefix operator (a unary-expression)
+      pst == IF ptr THEN "(*p" \o NS(n) \o ")" ELSE nm      \* operand of a postfix operator (a postfix-expression)
       post == op \in {"p++", "p--"}
-      sp == CASE op = "++p" -> "++" \o nm [] op = "--p" -> "--" \o nm [] op = "p++" -> nm \o "++" [] op = "p--" -> nm \o "--"
+      sp == CASE op = "++p" -> "++" \o pre [] op = "--p" -> "--" \o pre [] op = "p++" -> pst \o "++" [] op = "p--" -> pst \o "--"
   IN Bn(Ent(Res(tl, IF post THEN v0 ELSE s.v, s.ok), "", sp, IF post THEN 15 ELSE 14, 1, 1, FALSE, FALSE, FALSE,
-         <<Decl("lv", nm, tl, 0, LitOf(tl, v0), Hex64(v0), Hex64(s.v))>>, <<op \o ":" \o tl>>),
+         <<Decl(IF ptr THEN "lvp" ELSE "lv", nm, tl, 0, LitOf(tl, v0), Hex64(v0), Hex64(s.v))>>, <<op \o (IF ptr THEN ":*" ELSE ":") \o tl>>),
         tl = "B" /\ NotBool(AsgRhs(IF op \in {"++p", "p++"} THEN "+=" ELSE "-=", tl, v0, "i", One64).v))
 
 (* ---------------------------------------------------------------- steps *)
@@ -349,11 +355,12 @@ DoBin == Len(st) >= 2 /\ Top(1).ok /\ DepthOK(Max2(Top(0).d, Top(1).d) + 1, 2) /
 DoCond == UseCond /\ Len(st) >= 3 /\ Top(2).ok /\ DepthOK(Max2(Top(0).d, Max2(Top(1).d, Top(2).d)) + 1, 3)
             /\ (IF Top(2).v # Zero64 THEN Top(1).ok ELSE Top(0).ok) /\ Repl(3, CondEnt(Top(2), Top(1), Top(0)))
 DoAsg == Len(st) >= 1 /\ Top(0).ok /\ DepthOK(Top(0).d + 1, 1) /\ Leaves < MaxLeaves /\ \E op \in Pick(AsgOps) : \E t \in Pick(LvTypes) :
-           \E v0 \in Pick(GridOf(t)) : st' = Append(Pop(1), AsgEnt(op, t, v0, Top(0), cnt)) /\ cnt' = cnt + 1
+           \E v0 \in Pick(GridOf(t)) : \E ptr \in Pick(IF PtrLv THEN BOOLEAN ELSE {FALSE}) :
+             st' = Append(Pop(1), AsgEnt(op, t, v0, Top(0), cnt, ptr)) /\ cnt' = cnt + 1
 DoAsgBf == Len(st) >= 1 /\ Top(0).ok /\ DepthOK(Top(0).d + 1, 1) /\ Leaves < MaxLeaves /\ \E op \in Pick(AsgOps) : \E k \in Pick(BfKinds) :
            \E v0 \in Pick(BfGrid(k)) : st' = Append(Pop(1), AsgBfEnt(op, k, v0, Top(0), cnt)) /\ cnt' = cnt + 1
 DoInc == CanPush /\ 1 <= MaxDepth /\ \E op \in Pick(IncOps) : \E t \in Pick(LvTypes) : \E v0 \in Pick(GridOf(t)) :
-           Mine(t, v0) /\ Push(IncEnt(op, t, v0, cnt))
+           \E ptr \in Pick(IF PtrLv THEN BOOLEAN ELSE {FALSE}) : Mine(t, v0) /\ Push(IncEnt(op, t, v0, cnt, ptr))
 DoFin == Len(st) = 1 /\ fin' = TRUE /\ UNCHANGED <<st, cnt>>
 Do(kd) ==
   CASE kd = "leaf" -> DoLeaf [] kd = "enum" -> DoEnum [] kd = "lit" -> DoLit [] kd = "bf" -> DoBf [] kd = "un" -> DoUn
